@@ -122,15 +122,19 @@ mod verif_proofs {
         std::mem::forget(c);
     }
 
-    /// a default index out of bounds is an error, not a panic
+    /// -1 / 0 / +1 denormalize to the user minimum / default / maximum
     #[cfg_attr(kani, kani::proof)]
-    #[cfg_attr(kani, kani::unwind(4))]
-    pub(super) fn c08_conv_default_out_of_bounds_is_err() {
-        let u = g();
-        let idx = vk::any_u8_in(1, 3) as usize;
-        assert!(CoordConverter::new(vec![(UserCoord::new(u), DesignCoord::new(1.0))], idx).is_err(), "VK_ASSERT default_out_of_bounds_is_an_error");
-        assert!(CoordConverter::new(vec![(UserCoord::new(u), DesignCoord::new(1.0))], 0).is_ok(), "VK_ASSERT default_in_bounds_is_ok");
-        vk_cover!(idx == 3, "far out of bounds");
+    #[cfg_attr(kani, kani::unwind(6))]
+    pub(super) fn c08_conv_denormalize_extremes() {
+        let u = [g(), g(), g()];
+        vk::assume(u[0] < u[1] && u[1] < u[2]);
+        let c = CoordConverter::new(vec![
+            (UserCoord::new(u[0]), DesignCoord::new(100.0)), (UserCoord::new(u[1]), DesignCoord::new(400.0)), (UserCoord::new(u[2]), DesignCoord::new(900.0))], 1).unwrap();
+        assert!(NormalizedCoord::new(-1.0).to_user(&c).to_f64() == u[0], "VK_ASSERT normalized_extremes_denormalize_to_user_nodes");
+        assert!(NormalizedCoord::new(0.0).to_user(&c).to_f64() == u[1], "VK_ASSERT normalized_extremes_denormalize_to_user_nodes");
+        assert!(NormalizedCoord::new(1.0).to_user(&c).to_f64() == u[2], "VK_ASSERT normalized_extremes_denormalize_to_user_nodes");
+        vk_cover!(u[0] < 0.0 && u[2] > 0.0, "user range straddles zero");
+        std::mem::forget(c);
     }
 
     /// a wide quarter-step grid for probes against concrete axis triples
